@@ -28,7 +28,7 @@ ANCHOR_FILES = ["gpytorch/models/", "gpytorch/module.py", "gpytorch/utils/memoiz
 
 QUICK_FAMS = ["default", "default_iterative", "batch_nan", "ski", "ski_dynamic_grid", "sgpr", "batch", "svgp_whitened", "svgp_unwhitened", "lmc_multitask"]
 ALL_FAMS = ["default", "default_iterative", "batch", "batch_nan", "ski", "ski_dynamic_grid", "sgpr", "svgp_whitened", "svgp_unwhitened", "svgp_meanfield", "svgp_batch_decoupled", "lmc_multitask"]
-STATE_CHANGING = {"train_step", "set_data", "set_targets", "set_targets_strict", "load_sd"}
+STATE_CHANGING = {"train_step", "train_step_frozen", "train_step_jitter", "set_data", "set_targets", "set_targets_strict", "load_sd"}
 EXACT_ALPHA = ["pred", "pred_fpv", "pred_nodetach", "pred_skipvar", "pred_eager", "pred_batch", "train_step", "set_data", "set_targets", "set_targets_strict", "load_sd", "load_sd_same", "fantasy", "prior", "backward", "train_eval"]
 VAR_ALPHA = ["pred", "pred_batch", "pred_skipvar", "pred_eager", "train_step", "load_sd", "load_sd_same", "prior", "backward", "train_eval"]
 VAR_FAMS = {"svgp_whitened", "svgp_unwhitened", "svgp_meanfield", "svgp_batch_decoupled", "lmc_multitask"}
@@ -69,6 +69,15 @@ def cases(tier, seed):
             pick = rnd.sample(all3, min(len(all3), 700))
         for seq in pick:
             yield {"family": fam, "seq": list(seq), "mseed": rnd.randrange(1000)}
+        # other numerical settings at one call / a training step with part of the model frozen or under other settings
+        for new in ("pred_jitter", "train_step_frozen", "train_step_jitter"):
+            if fam == "batch_nan" and new == "pred_jitter":
+                continue
+            ext = [[new], [new, "pred"], ["pred", new, "pred"], [new, "train_eval", "pred"], [new, "load_sd_same", "pred"], ["pred", "train_step", new, "pred"]]
+            if tier != "quick":
+                ext += [[new, o] for o in ops] + [[o, new] for o in ops] + [[o, new, "pred"] for o in ops]
+            for seq in ext:
+                yield {"family": fam, "seq": seq, "mseed": rnd.randrange(1000)}
         nlong = 25 if tier == "quick" else 400
         for _ in range(nlong):
             L = rnd.randint(4, 8)
